@@ -16,6 +16,8 @@
   every sequence of API calls, every fault schedule and every placement of the encoder's flushes:
   * `stack_failure_reported`: an output closed by a `rotate_output` lost no byte unless an API call threw while it was open
     (the closing call included) – `rotate_output` never returns normally for an output that silently lost bytes;
+  * `stack_closed_output_is_complete_file`: …and what the OS holds of such an output is nothing at all or exactly header, the blocks
+    written, break;
   * `stack_block_kept`: an exception out of `write_block()` / a flushing `buffer_*()` leaves the records buffered (the one
     just handed over included);
   * `stack_reported_once`: after the report, further `write_block()` / `buffer_*()` calls on that output return normally;
@@ -27,6 +29,7 @@
 -/
 import CdnsVerif.Model.Writer
 import CdnsVerif.Proofs.Stack
+import CdnsVerif.Proofs.StackShape
 
 namespace CdnsVerif.Props.C16
 open CdnsVerif.Model.Writer CdnsVerif.Spec.Cbor
@@ -382,6 +385,18 @@ theorem stack_reported_once (s : St) (hf : s.w.failed = true) (hc bc : Cuts) :
     (step hdr enc s (.writeBlock hc bc)).1.w.failed = true :=
   ⟨(writeBlock_failed hdr enc s hc bc hf).1, fun r => (writeBlock_failed hdr enc { s with cur := s.cur ++ [r] } hc bc hf).1,
    (writeBlock_failed hdr enc s hc bc hf).2⟩
+
+/-- **What reaches the operating system is a complete file or nothing.**  For every API history, fault schedule and flush placement:
+    an output closed by `rotate_output` during whose lifetime no API call threw holds – as accepted by the OS – either no byte at
+    all, or exactly `header ++ block₁ ++ … ++ blockₙ ++ break` for the n ≥ 1 non-empty blocks written to it (C13/C02's "self-contained
+    file or empty", here at the level of the system calls, combined with `stack_failure_reported`). -/
+theorem stack_closed_output_is_complete_file (ops : List Op) :
+    ∀ o ∈ (run hdr enc St.init ops).1.closed, o.threw = false →
+      o.os = [] ∨ ∃ bl : List (List Nat), bl ≠ [] ∧ (∀ b ∈ bl, b ≠ []) ∧ o.os = hdr ++ (bl.map enc).flatten ++ [0xff] := by
+  intro o ho hth
+  have h1 := stack_failure_reported hdr enc ops o ho hth
+  have h2 := (shape_run hdr enc ops St.init (shape_init hdr enc)).2 o ho hth
+  rw [h1]; exact h2
 
 /-- the hypotheses of `stack_recovery` are met by a real history: a block whose flush the OS rejects -/
 example : let s := (run [1, 2] (fun rs => rs) St.init [.buffer 7, .writeBlock [] [(1, some .fail)]]).1
